@@ -61,6 +61,7 @@ var (
 	reLoop                = regexp.MustCompile(`(?i)\b(WHILE|LOOP|REPEAT\s|ITERATE|UNTIL)\b`)
 	reFiles               = regexp.MustCompile(`(?i)\b(OUTFILE|DUMPFILE|INFILE)\b`)
 	reWait                = regexp.MustCompile(`(?i)\b(SLEEP|GET_LOCK|BENCHMARK)\s*\(`)
+	reAmplifier           = regexp.MustCompile(`(?i)\b(REPEAT|SPACE|LPAD|RPAD)\s*\(`)
 )
 
 // domainExcluded names the reason a statement is outside the generated domain, or "".
@@ -85,6 +86,9 @@ func domainExcluded(gen string, q string) string {
 		if reWait.MatchString(q) {
 			return "by-design-waiting-call"
 		}
+		if gen != "collate" && reAmplifier.MatchString(q) {
+			return "amplifier-call" // REPEAT/SPACE/LPAD/RPAD with a mutated or hostile count (known finding, via=domain)
+		}
 	}
 	return ""
 }
@@ -96,6 +100,11 @@ func dirties(q string) bool {
 		return true
 	}
 	return strings.Contains(strings.ToUpper(q), "INTO")
+}
+
+// panicSig is panic:<frame that raised the panic>:<stripped message>.
+func panicSig(p *core.PanicInfo) string {
+	return "panic:" + g12lib.DeepPanicSite(p.Stack) + ":" + core.StripVolatile(p.Value)
 }
 
 func clip(s string) string { return core.Clip(s, 4000) }
@@ -154,13 +163,14 @@ func workerMain(ch *g12lib.Child) {
 		for k, q := range c.Stmts {
 			cur.i, cur.k, cur.key, cur.sql = i, k, c.Key, q
 			ch.Journal(i, k, q)
-			if dirties(q) {
-				dirty = true
-			}
+			mayDirty := dirties(q)
 			if strings.Contains(strings.ToLower(q), "lock") {
 				usedLocks = true
 			}
 			r := s.Exec(q)
+			if mayDirty && !(r.Err != nil && r.ErrClass() == "1064") { // a parse error cannot have changed anything
+				dirty = true
+			}
 			switch {
 			case r.TimedOut:
 				res.O = append(res.O, "timeout")
@@ -169,7 +179,7 @@ func workerMain(ch *g12lib.Child) {
 				os.Exit(g12lib.ExitWatchdog) // the statement's goroutine is still running: this process is spent
 			case r.Panic != nil:
 				res.O = append(res.O, "panic")
-				res.Ev = append(res.Ev, event{Kind: "panic", Sig: r.Panic.Sig(), Stmt: k, SQL: clip(q), Stmts: clipAll(c.Stmts), Detail: r.Panic.Value + "\n" + core.Clip(r.Panic.Stack, 3000)})
+				res.Ev = append(res.Ev, event{Kind: "panic", Sig: panicSig(r.Panic), Stmt: k, SQL: clip(q), Stmts: clipAll(c.Stmts), Detail: r.Panic.Value + "\n" + core.Clip(r.Panic.Stack, 3000)})
 				dirty = true // a panic may have left engine locks held
 			case r.Err != nil:
 				res.O = append(res.O, "e:"+r.ErrClass())
@@ -214,7 +224,7 @@ func canary(s *core.Sess, res *caseResult) *event {
 		case r.TimedOut:
 			return &event{Kind: "timeout", Sig: "hang:canary:" + step, Detail: "canary " + step + " exceeded the watchdog"}
 		case r.Panic != nil:
-			return &event{Kind: "panic", Sig: r.Panic.Sig(), Detail: "canary " + step + " panicked: " + r.Panic.Value + "\n" + core.Clip(r.Panic.Stack, 3000)}
+			return &event{Kind: "panic", Sig: panicSig(r.Panic), Detail: "canary " + step + " panicked: " + r.Panic.Value + "\n" + core.Clip(r.Panic.Stack, 3000)}
 		case r.Err != nil:
 			return &event{Kind: "canary", Sig: "session-unusable:" + step + ":" + r.ErrClass() + ":" + core.StripVolatile(r.Err.Error()), Detail: "canary " + step + " failed: " + r.Err.Error()}
 		}
